@@ -478,7 +478,7 @@ Fourteenth wave (suffix n), 16 changes: 5 were caught as delivered (C03n, C04n, 
 C20n); three generators had been widened while the sub-agents were still at work and caught
 their change at the first try (C09n: shares above 100 %; C15n: status codes that have no
 registered name; C12n: a header a later remedy adds to the response after it was stored must
-not come back in a replay); 8 were missed at first. What was changed:
+not come back in a replay); 8 were missed at first, all are caught now. What was changed:
 C01n (group values differed in more than their case: `A` is a group beside `a` now),
 C02n (a request-side processor of a user flow fails after the quota admitted the transaction
 - the gateway is fail-open, the call goes to the provider and keeps its slot: the `proc.execute`
@@ -502,12 +502,12 @@ C17n (the flow context created lazily, unsynchronised, by its first users: neede
 a Retry processor under the race detector - C18R loads one and sends it 503 responses; caught
 by the C18 check),
 C05n (the cycle check of the validator no longer follows connections that cross into another
-flow): **not caught.** The configuration that shows it - a request processor handing over to a
-second flow's start, that flow's end leading back - is among the generated references now, and
-the dry run builds the two flows in either order, but the generated second flows are refused
-by the builder ("foreign root node not found") before the cycle check is reached; the
-hand-written pair of the sub-agent's demonstration is accepted by the changed validator and
-overflows the stack. Left as a known gap of the C05 generator.
+flow: the references the generator made pointed at a second flow on the same URL, which the
+builder refuses for other reasons before the cycle check is reached; one run in eight now
+loads a pair of flows of the shape of the shipped samples - a flow on the tested URL that
+hands its request over to a shared flow on another URL, whose end leads back - which goes
+round in a circle and has to be refused, and an acyclic variant that chains the flows the
+ordinary way; the dry run builds the flows in either order).
 
 ### 12.1 Reverting the repairs
 
